@@ -246,8 +246,20 @@ def shard_real(sh: Shard, tier, seed, pairs, parts):
 
         setattr(sh, name, locked)
 
+    harness_died = []
+
     def hook(a):
-        died.append((a.thread.name if a.thread else "?", repr(a.exc_value)))
+        name = a.thread.name if a.thread else "?"
+        (harness_died if "one_pair" in name else died).append((name, repr(a.exc_value)))
+
+    # everything the pair threads import is imported here first (concurrent first imports of a package
+    # from several threads can see it partially initialised)
+    import geckolib.driver  # noqa: F401
+    import geckolib.spa  # noqa: F401
+    import geckolib.spa_descriptor  # noqa: F401
+    import geckolib.utils.simulator  # noqa: F401
+    import geckolib.utils.snapshot  # noqa: F401
+    from vlib import realworld  # noqa: F401
 
     threading.excepthook = hook
     import faulthandler
@@ -268,6 +280,8 @@ def shard_real(sh: Shard, tier, seed, pairs, parts):
         sh.count("real_world_watchdog")
     threading.excepthook = old
     sys.stdout = real_stdout
+    if harness_died:
+        sh.inconc(f"a harness thread of the real-socket part failed: {harness_died[0]}")
     unexpected = [x for x in died if "too long" not in x[1]]
     sh.count("real_library_thread_deaths_spa_took_too_long(noted)", len(died) - len(unexpected))
     if unexpected:
